@@ -13,7 +13,7 @@ from vf.explore import digest, parallel
 from vf.vworld import base, peer
 
 METHODS = ['GET', 'POST', 'OPTIONS', 'PUT', 'DELETE', 'HEAD']
-EIOS = [None, '4', '3', '5', '', '44']
+EIOS = [None, '4', '3', '5', '', '44', '4&EIO=3']      # the last: the parameter given twice, the first value being the right one
 TRANSPORTS = [None, 'polling', 'websocket', 'bogus', 'poll', 'socket']     # the last two: proper substrings of the real names
 SIDKINDS = ['absent', 'live_polling', 'live_upgraded', 'mid_upgrade', 'closed', 'unknown', 'rejected', 'closing', 'suffixed', 'prefix']
 HDRS = ['none', 'both', 'upgrade_only', 'connection_only', 'other_protocol', 'both_mixed']   # both_mixed: the same two headers, other letter case
